@@ -14,6 +14,9 @@ from gen import Contract, UnitFile  # noqa: E402
 import common  # noqa: E402
 
 FM = "src/format.rs"
+LEX = "src/parser/lex.rs"
+POS = "src/parser/position.rs"
+VFS = "src/parser/vfs.rs"
 RLIMIT = 300
 MIN_FUNCTIONS = 1
 
@@ -25,13 +28,18 @@ ASSUMPTIONS = {
     "vt_to_owned": "str::to_owned copies the text",
     "vsort_edits_desc": "slice::sort_by_key(|e| Reverse(e.start_offset)): a permutation of the elements in descending start order",
     "vsort_edits_asc": "slice::sort_by_key(|e| e.start_offset): a permutation in ascending start order",
+    "PathBuf": "opaque", "VfsId": "opaque", "ParseErrors": "opaque: the Vec<ParseError> lex_between also returns (unused here)",
+    "lex_between": "lex_between over the whole text: every token lies in the text on character boundaries and is non-empty, the tokens are in source order, idx == 0 (PROVED in unit lex in the byte-level model: tokens_ok, tokens_in_source_order, idx0; restated here in the content-level model: that `is_cb(s, o)` of prelude/strings.rs and `is_cbt(s@, o)` of prelude/text.rs describe the same offsets is assumed)",
+    "pop": "TokenStream::pop (PROVED in unit tokens)", "vt_contains_char": "str::contains(char)", "vs_eq": "str == str compares the texts",
+    "vspaced_before_paren": "SPACED_BEFORE_PAREN.contains(&text)",
     "vS_replace_range": "String::replace_range(a..b, s): panics unless a <= b <= len and both are char boundaries; replaces the chars between them by s",
 }
 LEMMAS = {n: {"C17"} for n in ("lemma_off_prefix", "lemma_cbt_prefix", "lemma_cbt_of_prefix", "lemma_desc_adjacent",
                               "lemma_off_step", "lemma_off_zero", "lemma_off_mono", "lemma_off_inj", "lemma_cix", "lemma_cix_props",
                               "lemma_blen_concat", "lemma_off_sub", "lemma_u16_bounds", "lemma_u16_split")}
 UNVERIFIED = {"C17": [
-    "the producers of the span edits (IndentationVisitor's fix_* helpers, normalize_token_spacing): that the spans they push are pairwise disjoint, and that what they replace is only whitespace or an optional comma — the precondition of apply_span_edits and the heart of the property are NOT under contract",
+    "normalize_token_spacing is under contract: every edit it hands to apply_span_edits replaces exactly the gap between two adjacent tokens (so the edits are in the text, on boundaries and pairwise separate); that such a gap holds only whitespace (it is skipped when it contains `/` or a newline) and that changing it does not change the token sequence is not proved",
+    "the other producers of span edits (IndentationVisitor's fix_* helpers): that the spans they push are pairwise disjoint, and that what they replace is only whitespace or an optional comma — the precondition of apply_span_edits and the heart of the property are NOT under contract",
     "apply_indentation_edits, normalize_blank_lines, wrap_long_signatures and the other formatter phases",
     "that the formatted text parses to the same tree with the same comments: only fmtedits.bounded[format_corpus] (bounded) checks it",
 ]}
@@ -55,6 +63,51 @@ pub fn vS_replace_range(s: &mut String, a: usize, b: usize, with: &String)
     requires a <= b <= blen_cs(old(s)@), is_cbt(old(s)@, a as int), is_cbt(old(s)@, b as int),
     ensures final(s)@ == old(s)@.subrange(0, cix(old(s)@, a as int)) + with@ + old(s)@.subrange(cix(old(s)@, b as int), old(s)@.len() as int),
 { unimplemented!() }
+"""
+
+GLUE_TOKENS = """
+#[verifier::external_body] pub struct PathBuf { _o: u8 }
+#[verifier::external_body] pub struct ParseErrors { _o: u8 }
+/// a token of the text cs: inside the text, on character boundaries, non-empty (what lex_between guarantees per token: unit lex, C23)
+pub open spec fn tok_ok_t<'a>(cs: Seq<char>, t: Token<'a>) -> bool {
+    t.position.start_offset < t.position.end_offset <= blen_cs(cs)
+    && is_cbt(cs, t.position.start_offset as int) && is_cbt(cs, t.position.end_offset as int)
+}
+pub open spec fn toks_ok_t<'a>(cs: Seq<char>, ts: Seq<Token<'a>>) -> bool {
+    forall|i: int| 0 <= i < ts.len() ==> tok_ok_t(cs, #[trigger] ts[i])
+}
+pub open spec fn toks_sorted<'a>(ts: Seq<Token<'a>>) -> bool {
+    forall|i: int, j: int| #![trigger ts[i], ts[j]] 0 <= i < j < ts.len() ==> ts[i].position.end_offset <= ts[j].position.start_offset
+}
+/// lex_between over the whole text (PROVED in unit lex, in the byte-level model of prelude/strings.rs: tokens_ok,
+/// tokens_in_source_order, idx0; restated here in the content-level model of prelude/text.rs)
+#[verifier::external_body]
+pub fn lex_between<'a>(vfs_path: &VfsPathBuf, s: &'a str, offset: usize, end_offset: usize) -> (r: (TokenStream<'a>, ParseErrors))
+    requires offset == 0, end_offset == blen_cs(s@),
+    ensures toks_ok_t(s@, r.0.tokens@), toks_sorted(r.0.tokens@), r.0.idx == 0,
+{ unimplemented!() }
+impl<'a> TokenStream<'a> {
+    /// TokenStream::pop (PROVED in unit tokens)
+    #[verifier::external_body]
+    pub fn pop(&mut self) -> (r: Option<Token<'a>>)
+        requires old(self).idx <= old(self).tokens@.len(),
+        ensures final(self).tokens@ == old(self).tokens@, final(self).idx <= final(self).tokens@.len(),
+            r is Some <==> old(self).idx < old(self).tokens@.len(),
+            r is Some ==> r->Some_0 == old(self).tokens@[old(self).idx as int] && final(self).idx == old(self).idx + 1,
+            r is None ==> final(self).idx == old(self).idx,
+    { unimplemented!() }
+}
+/// every edit replaces exactly the gap between two adjacent tokens
+pub open spec fn gap_edits<'a>(ts: Seq<Token<'a>>, es: Seq<SpanEdit>) -> bool {
+    forall|k: int| 0 <= k < es.len() ==> exists|i: int| 0 <= i && i + 1 < ts.len()
+        && (#[trigger] es[k]).start_offset == ts[i].position.end_offset && es[k].end_offset == #[trigger] ts[i + 1].position.start_offset
+}
+#[verifier::external_body]
+pub fn vt_contains_char(s: &str, c: char) -> (r: bool) { unimplemented!() }
+#[verifier::external_body]
+pub fn vs_eq(a: &str, b: &str) -> (r: bool) ensures r == (a@ == b@) { unimplemented!() }
+#[verifier::external_body]
+pub fn vspaced_before_paren(t: &str) -> (r: bool) { unimplemented!() }
 """
 
 FORMAT_PROGRAMS = [
@@ -169,6 +222,44 @@ proof {
     assert((pre + tail).subrange(b, (pre + tail).len() as int) =~= cs.subrange(b, m) + tail);
     assert(edited(cs, es, k + 1) =~= cs.subrange(0, a) + (es[k].replacement@ + cs.subrange(b, m) + tail));
 }""")},
+        props={"C17"}))
+    # normalize_token_spacing: the producer of span edits for commas, `=>`, `+=` / `-=` and keywords before `(`:
+    # the edits it hands to apply_span_edits are inside the text on character boundaries and pairwise separate,
+    # and each one replaces exactly the gap between two adjacent tokens
+    u.raw("#[verifier::external_body] pub struct VfsId { _o: u8 }", kind="prelude")
+    u.raw(GLUE_TOKENS.split("#[verifier::external_body] pub struct ParseErrors")[0], kind="prelude")
+    u.add_type(VFS, "VfsPathBuf")
+    u.add_type(POS, "Position")
+    u.add_type(LEX, "Token")
+    u.add_type(LEX, "TokenStream")
+    u.raw("#[verifier::external_body] pub struct ParseErrors" + GLUE_TOKENS.split("#[verifier::external_body] pub struct ParseErrors")[1], kind="prelude")
+    NTS_RULES = [
+        rw.simple("T1", r"&crate::parser::vfs::VfsPathBuf", "&VfsPathBuf"),
+        rw.simple("R2", r"\bsrc\.len\(\)", "vt_len(src)"),
+        rw.simple("local", r"let mut tokens = vec!\[\];", "let mut tokens: Vec<Token> = Vec::new();"),
+        rw.simple("local", r"let mut edits: Vec<SpanEdit> = vec!\[\];", "let mut edits: Vec<SpanEdit> = Vec::new();"),
+        rw.simple("R4w", r"for pair in tokens\.windows\(2\) \{\s*let prev = &pair\[0\];\s*let next = &pair\[1\];",
+                  "let mut __i1: usize = 0; while tokens.len() > 0 && __i1 < tokens.len() - 1 { let prev = &tokens[__i1]; let next = &tokens[__i1 + 1]; __i1 += 1;"),
+        rw.simple("R7", r"&src\[gap_start\.\.gap_end\]", "vt_slice(src, gap_start, gap_end)"),
+        rw.simple("R2", r"gap\.contains\(('(?:[^'\\]|\\.)')\)", r"vt_contains_char(gap, \1)"),
+        rw.simple("R10", r"matches!\((\w+\.text), (\"[^\"]*\")((?:\s*\|\s*\"[^\"]*\")*)\)", lambda m: "(" + " || ".join("vs_eq(%s, %s)" % (m.group(1), x.strip()) for x in ([m.group(2)] + [y for y in m.group(3).split("|") if y.strip()])) + ")"),
+        rw.simple("R10", r"(\w+\.text) == (\"[^\"]*\")", r"vs_eq(\1, \2)"),
+        rw.simple("R2", r"SPACED_BEFORE_PAREN\.contains\(&prev\.text\)", "vspaced_before_paren(prev.text)"),
+        rw.simple("R10", r"\bgap != desired\b", "!vs_eq(gap, desired)"),
+        rw.simple("R11", r"\bdesired\.to_owned\(\)", "vt_to_owned(desired)"),
+    ]
+    u.add_fn(FM, "normalize_token_spacing", rules=NTS_RULES, contract=Contract(
+        ensures=[("result_is_the_text_with_the_collected_edits_applied",
+                  "exists|es: Seq<SpanEdit>| sorted_desc(es) && r@ == #[trigger] edited(src@, es, es.len() as int)")],
+        loops={1: dict(invariant=[("drained_so_far", "token_stream.tokens@ == ts0, token_stream.idx <= ts0.len(), tokens@ =~= ts0.subrange(0, token_stream.idx as int)")],
+                       ensures=[("all_drained", "tokens@ =~= ts0")],
+                       decreases="ts0.len() - token_stream.idx"),
+               2: dict(invariant=[("tokens_fixed", "tokens@ == ts0, toks_ok_t(src@, ts0), toks_sorted(ts0), __i1 <= ts0.len()"),
+                                  ("edits_are_gaps", "edits_ok(src@, edits@), edits_separate(edits@), gap_edits(ts0, edits@)"),
+                                  ("edits_end_before_the_current_token", "forall|k: int| 0 <= k < edits@.len() ==> __i1 < ts0.len() && (#[trigger] edits@[k]).end_offset <= ts0[__i1 as int].position.start_offset")],
+                       body_prelude="proof { assert(ts0[__i1 as int].position.end_offset <= ts0[__i1 as int + 1].position.start_offset); assert(tok_ok_t(src@, ts0[__i1 as int])); assert(tok_ok_t(src@, ts0[__i1 as int + 1])); }",
+                       decreases="ts0.len() - __i1")},
+        hints=[dict(anchor="let mut tokens", where="before", name="lexed", text="let ghost ts0 = token_stream.tokens@;")],
         props={"C17"}))
     u.add_canary_proof()
     u.raw(common.FOOTER)
